@@ -827,7 +827,13 @@ def _twin_worker(job):
     out = {"seed": seed, "mismatches": [], "stats": {}, "ncmds": 0, "digest": 0, "nontrivial": True, "twin": []}
     try:
         focus = cfg["focus"]
-        prim.do(1, [rng.choice([0, 1]), []])
+        rules0 = []
+        if rng.random() < 0.5:
+            for _ in range(rng.randint(1, 2)):
+                p0 = G.gen_lru(rng, weird=0, maxpath=0)
+                if p0 not in [x[0] for x in rules0]:
+                    rules0.append([p0, rng.choice([2, 2, 3, 1])])
+        prim.do(1, [rng.choice([0, 1]), rules0])
         mixw = dict(G.DEFAULT_MIX)
         if mode == "memory":
             mixw["reopen"] = 0
